@@ -548,3 +548,12 @@ def sweep(prog):
             out.append(f"{f.loc(e.node)}: {e.detail[:160]}")
     out.append(f"numeric-kind analysis swept over {n} functions")
     return out
+
+# a temporary the pinned tree does not have is read through (vk/inlinetemps.py) - unless what it was computed from changes before it is read
+_SLICE = "                local_score_vector = score_vector[\n                    current_ind : current_ind + position_size\n                ]\n"
+FAULTS += [
+    ("slice end held in a temporary that goes stale", [(UT, _SLICE, "                position_end = current_ind + position_size\n                current_ind = position_end\n                local_score_vector = score_vector[current_ind:position_end]\n")], "C04.R2"),
+]
+BENIGN += [
+    ("slice end held in a new temporary", [(UT, _SLICE, "                position_end = current_ind + position_size\n                local_score_vector = score_vector[current_ind:position_end]\n")]),
+]
